@@ -1124,3 +1124,296 @@ func (p *Program) pfSplitCollected(cases []ReturnCase, idx int) []pfCollectedCas
 	}
 	return out
 }
+
+// ---------------------------------------------------------------------------------------------
+// Equivalent spellings of library predicates
+//
+// The rules look for API predicates (meta.FindStatusCondition, metav1.IsControlledBy, emptiness
+// tests). Code may spell the same predicate with the standard-library search helpers; the
+// equivalences below are evident from the vendored library sources:
+//
+//	meta.FindStatusCondition(conds, T)   ==  i := slices.IndexFunc(conds, func(c) bool { return c.Type == T });
+//	                                         i >= 0 ? &conds[i] : nil
+//	metav1.IsControlledBy(obj, owner)    ==  refs := obj.GetOwnerReferences();
+//	                                         i := slices.IndexFunc(refs, func(r) bool { return r.Controller != nil && *r.Controller });
+//	                                         i >= 0 && refs[i].UID == owner.GetUID()
+//	len(s) == 0                          ==  s == ""        (strings)
+
+// pfEmptyCmp is lenCmp extended by the comparison of a string with "".
+func pfEmptyCmp(cond ssa.Value) (x ssa.Value, trueMeansNonEmpty bool, ok bool) {
+	if x, ne, ok := lenCmp(cond); ok {
+		return x, ne, true
+	}
+	b, isBin := cond.(*ssa.BinOp)
+	if !isBin || (b.Op != token.EQL && b.Op != token.NEQ) {
+		return nil, false, false
+	}
+	for _, pair := range [][2]ssa.Value{{b.X, b.Y}, {b.Y, b.X}} {
+		if s, isStr := constString(pair[1]); isStr && s == "" {
+			if _, isConst := pair[0].(*ssa.Const); !isConst {
+				return pair[0], b.Op == token.NEQ, true
+			}
+		}
+	}
+	return nil, false, false
+}
+
+// pfFuncValue: v is a function used as a value (named function, closure, method value).
+func pfFuncValue(v ssa.Value) *ssa.Function {
+	switch x := stripConv(v).(type) {
+	case *ssa.Function:
+		return x
+	case *ssa.MakeClosure:
+		f, _ := x.Fn.(*ssa.Function)
+		return f
+	}
+	return nil
+}
+
+// pfSearchCall: call is slices.IndexFunc(S, pred) or slices.ContainsFunc(S, pred) with a predicate
+// whose body is available; returns S and the predicate.
+func pfSearchCall(call *ssa.Call) (slice ssa.Value, pred *ssa.Function, index bool, ok bool) {
+	if call == nil || call.Common().IsInvoke() || len(call.Common().Args) != 2 {
+		return nil, nil, false, false
+	}
+	id := calleeID(call.Common())
+	if id != "slices.IndexFunc" && id != "slices.ContainsFunc" {
+		return nil, nil, false, false
+	}
+	f := pfFuncValue(call.Common().Args[1])
+	if f == nil || f.Blocks == nil || len(f.Params) != 1 {
+		return nil, nil, false, false
+	}
+	return call.Common().Args[0], f, id == "slices.IndexFunc", true
+}
+
+// pfParamField: v is `<the only parameter of pred>.<field>` (the parameter may be copied into a local).
+func (p *Program) pfParamField(pred *ssa.Function, v ssa.Value, field string) bool {
+	root, ok := p.pfFieldLoad(v, field)
+	return ok && p.pfRootValue(root) == ssa.Value(pred.Params[0])
+}
+
+// pfPredTypeEquals: the predicate is true exactly for elements whose field Type equals a string
+// constant: every return yields `elem.Type == T` (or the constant false).
+func (p *Program) pfPredTypeEquals(pred *ssa.Function) (string, bool) {
+	typ, n := "", 0
+	for _, rc := range p.returnCases(pred) {
+		if len(rc.Results) != 1 {
+			return "", false
+		}
+		r := rc.Results[0]
+		if cb, isC := constBool(r); isC {
+			if cb {
+				return "", false
+			}
+			continue
+		}
+		b, isBin := r.(*ssa.BinOp)
+		if !isBin || b.Op != token.EQL {
+			return "", false
+		}
+		found := false
+		for _, pair := range [][2]ssa.Value{{b.X, b.Y}, {b.Y, b.X}} {
+			if s, isStr := constString(pair[1]); isStr && p.pfParamField(pred, pair[0], "Type") {
+				if typ != "" && typ != s {
+					return "", false
+				}
+				typ, found = s, true
+			}
+		}
+		if !found {
+			return "", false
+		}
+		n++
+	}
+	return typ, n > 0
+}
+
+// pfPredIsControllerRef: the predicate is true exactly for owner references that are controller
+// references: every possibly-true return yields `*ref.Controller` (reached under ref.Controller != nil).
+func (p *Program) pfPredIsControllerRef(pred *ssa.Function) bool {
+	isCtrl := func(v ssa.Value) bool {
+		u, ok := v.(*ssa.UnOp)
+		return ok && u.Op == token.MUL && p.pfParamField(pred, u.X, "Controller")
+	}
+	n := 0
+	for _, rc := range p.returnCases(pred) {
+		if len(rc.Results) != 1 {
+			return false
+		}
+		r := rc.Results[0]
+		if cb, isC := constBool(r); isC {
+			if !cb {
+				continue
+			}
+			// constant true: only under the fact that *ref.Controller is true
+			ok := false
+			for _, f := range rc.Facts {
+				if f.Pol && isCtrl(f.Cond) {
+					ok = true
+				}
+			}
+			if !ok {
+				return false
+			}
+			n++
+			continue
+		}
+		f := p.mkFact(r, true) // folds `x == true` / `!x`
+		if !f.Pol || !isCtrl(f.Cond) {
+			return false
+		}
+		n++
+	}
+	return n > 0
+}
+
+// pfFoundCondition: v is a pointer to the first condition of type T in a condition list, or nil when
+// there is none — meta.FindStatusCondition(conds, T) or its spelling with slices.IndexFunc. id is the
+// value that identifies this lookup (compare with p.sameValue).
+func (p *Program) pfFoundCondition(v ssa.Value) (id ssa.Value, conds ssa.Value, typ string, ok bool) {
+	v = stripConv(v)
+	if call, _ := asCall(v); call != nil {
+		if isCallTo(call.Common(), pkgMeta+".FindStatusCondition") && len(call.Common().Args) == 2 {
+			if s, isStr := constString(call.Common().Args[1]); isStr {
+				return call, call.Common().Args[0], s, true
+			}
+		}
+		return nil, nil, "", false
+	}
+	elem := func(e ssa.Value) (ssa.Value, string, bool) {
+		ia, isIA := e.(*ssa.IndexAddr)
+		if !isIA {
+			return nil, "", false
+		}
+		sc, _ := asCall(ia.Index)
+		s, pred, index, isSearch := pfSearchCall(sc)
+		if !isSearch || !index || !p.sameValue(s, ia.X) {
+			return nil, "", false
+		}
+		t, isType := p.pfPredTypeEquals(pred)
+		if !isType {
+			return nil, "", false
+		}
+		return ia.X, t, true
+	}
+	switch x := v.(type) {
+	case *ssa.IndexAddr:
+		if c, t, isElem := elem(x); isElem {
+			return x, c, t, true
+		}
+	case *ssa.Phi:
+		for _, e := range x.Edges {
+			e = stripConv(e)
+			if isNilConst(e) {
+				continue
+			}
+			c, t, isElem := elem(e)
+			if !isElem || (ok && (t != typ || !p.sameValue(c, conds))) {
+				return nil, nil, "", false
+			}
+			conds, typ, ok = c, t, true
+		}
+		if ok {
+			return x, conds, typ, true
+		}
+	}
+	return nil, nil, "", false
+}
+
+// pfNegativeTest decomposes `x < 0`, `x == -1`, `x >= 0`, `x != -1`, `0 > x`, … into (x, condTrueMeansNegative).
+func pfNegativeTest(cond ssa.Value) (x ssa.Value, trueMeansNegative bool, ok bool) {
+	b, isBin := cond.(*ssa.BinOp)
+	if !isBin {
+		return nil, false, false
+	}
+	l, r, op := b.X, b.Y, b.Op
+	if _, isC := constInt(l); isC {
+		l, r = r, l
+		switch op {
+		case token.LSS:
+			op = token.GTR
+		case token.GTR:
+			op = token.LSS
+		case token.LEQ:
+			op = token.GEQ
+		case token.GEQ:
+			op = token.LEQ
+		}
+	}
+	n, isC := constInt(r)
+	if !isC {
+		return nil, false, false
+	}
+	switch {
+	case op == token.LSS && n == 0, op == token.LEQ && n == -1, op == token.EQL && n == -1:
+		return l, true, true
+	case op == token.GEQ && n == 0, op == token.GTR && n == -1, op == token.NEQ && n == -1:
+		return l, false, true
+	}
+	return nil, false, false
+}
+
+// pfControlledBy: do the facts decide metav1.IsControlledBy(obj, owner) for an object satisfying
+// objOK and an owner satisfying ownerOK? Recognises the library call (and its canonical spellings)
+// and the predicate written out with slices.IndexFunc over obj.GetOwnerReferences().
+func (p *Program) pfControlledBy(fs []Fact, objOK, ownerOK func(ssa.Value) bool) tri {
+	for _, pol := range []bool{true, false} {
+		if _, ok := p.findFactCall(fs, pol, []string{pkgMetaV1 + ".IsControlledBy"}, func(cc *ssa.CallCommon) bool {
+			return len(cc.Args) == 2 && objOK(cc.Args[0]) && ownerOK(cc.Args[1])
+		}); ok {
+			if pol {
+				return yesTri
+			}
+			return noTri
+		}
+	}
+	// idx := slices.IndexFunc(obj.GetOwnerReferences(), <is controller reference>)
+	ctrlIndex := func(v ssa.Value) (refs ssa.Value, ok bool) {
+		sc, _ := asCall(v)
+		s, pred, index, isSearch := pfSearchCall(sc)
+		if !isSearch || !index || !p.pfPredIsControllerRef(pred) {
+			return nil, false
+		}
+		gc, _ := asCall(s)
+		if gc == nil || calleeName(gc.Common()) != "GetOwnerReferences" || callRecv(gc.Common()) == nil || !objOK(callRecv(gc.Common())) {
+			return nil, false
+		}
+		return s, true
+	}
+	for _, f := range fs {
+		if x, trueMeansNeg, ok := pfNegativeTest(f.Cond); ok && f.Pol == trueMeansNeg {
+			if _, isCtrl := ctrlIndex(x); isCtrl {
+				return noTri // no controller reference at all
+			}
+		}
+		b, isBin := f.Cond.(*ssa.BinOp)
+		if !isBin || (b.Op != token.EQL && b.Op != token.NEQ) {
+			continue
+		}
+		equal := (b.Op == token.EQL) == f.Pol
+		for _, pair := range [][2]ssa.Value{{b.X, b.Y}, {b.Y, b.X}} {
+			root, isUID := p.pfFieldLoad(pair[0], "UID")
+			if !isUID {
+				continue
+			}
+			ia, isIA := root.(*ssa.IndexAddr)
+			if !isIA {
+				continue
+			}
+			refs, isCtrl := ctrlIndex(ia.Index)
+			if !isCtrl || !p.sameValue(refs, ia.X) {
+				continue
+			}
+			gu, _ := asCall(pair[1])
+			if gu == nil || calleeName(gu.Common()) != "GetUID" || callRecv(gu.Common()) == nil || !ownerOK(callRecv(gu.Common())) {
+				continue
+			}
+			if equal {
+				return yesTri
+			}
+			return noTri
+		}
+	}
+	return unknownTri
+}
